@@ -348,6 +348,21 @@ def run(chk, facts, tier):
     c19.cache_ownership(chk, facts)
     from rules import shared_getters
     shared_getters.check(chk, facts, "C01.GETTER", ["cedar_policy_core::authorizer::", "cedar_policy::api::"], 20)
+    # every policy of the set is considered: the authorizer's loop runs over policies() itself, nothing is filtered out
+    from lib import pipeline
+    from lib.slice import leaf_producers
+    f_ = facts.fns.get("cedar_policy_core::authorizer::Authorizer::is_authorized_core_internal")
+    if f_ is None:
+        chk.lost("C01.PIPE", "Authorizer::is_authorized_core_internal")
+    else:
+        drops, _coll = pipeline.audit(f_, facts.closures_of(f_.name))
+        srcs = set()
+        for b_, t_ in f_.calls():
+            if t_[1].get("mac") == "Desugaring" and callee(t_).endswith("IntoIterator>::into_iter"):
+                srcs |= {x.split("::")[-1] for x in leaf_producers(f_, t_[2][0]) if x.startswith("call:")}
+        chk.ob("C01.PIPE", "all-policies", not drops and srcs == {"policies"},
+               "the authorizer's loop runs over PolicySet::policies() itself (loop sources: %s) with no dropping adaptor (%s)" % (sorted(srcs), [d for d, _ in drops] or "none"),
+               where=f_.where(drops[0][1] if drops else None), fn=f_.name, key="C01.PIPE:all-policies:%s" % ",".join(sorted({d for d, _ in drops})), sample={"sources": sorted(srcs)})
     from rules import shared_roles
     shared_roles.check(chk, facts, "C01.ROLES",
                        ["cedar_policy::api::Request::new", "cedar_policy_core::ast::request::Request::new", "cedar_policy_core::ast::request::Request::new_with_unknowns",
